@@ -1055,7 +1055,13 @@ func (u *Unit) applyContract(ev *Ev, c *Contract, sig *types.Signature, recv *Va
 		}
 	}
 	nBefore := len(st.pc)
+	locals := u.ghostLocals(c, sig)
 	for _, e := range c.Ensures {
+		if len(locals) > 0 && e.Expr != nil && mentionsName(e.Expr, locals) {
+			// the clause talks about a ghost local of the callee's own activation: proved there, but it says nothing a
+			// caller can use (and must not be read against a caller's ghost of the same name)
+			continue
+		}
 		g := sev.expr(e.Expr)
 		st.assume(g.T)
 	}
@@ -1079,6 +1085,50 @@ func (u *Unit) applyContract(ev *Ev, c *Contract, sig *types.Signature, recv *Va
 		u.eng.noteTrusted(u, c)
 	}
 	return packResults(res)
+}
+
+// ghostLocals: names introduced by the callee's own `ghost at <anchor>: name = ...` clauses (not declared ghost variables,
+// not parameters or results).
+func (u *Unit) ghostLocals(c *Contract, sig *types.Signature) map[string]bool {
+	if len(c.GhostAt) == 0 {
+		return nil
+	}
+	out := map[string]bool{}
+	for _, gas := range c.GhostAt {
+		for _, ga := range gas {
+			id, ok := ga.LHS.(*ast.Ident)
+			if !ok {
+				continue
+			}
+			if _, isGhost := u.eng.cs.Ghosts[id.Name]; isGhost {
+				continue
+			}
+			out[id.Name] = true
+		}
+	}
+	if sig != nil {
+		for i := 0; i < sig.Params().Len(); i++ {
+			delete(out, sig.Params().At(i).Name())
+		}
+		for i := 0; i < sig.Results().Len(); i++ {
+			delete(out, sig.Results().At(i).Name())
+		}
+	}
+	for _, r := range c.ResultNames {
+		delete(out, r)
+	}
+	return out
+}
+
+func mentionsName(e ast.Expr, names map[string]bool) bool {
+	found := false
+	ast.Inspect(e, func(n ast.Node) bool {
+		if id, ok := n.(*ast.Ident); ok && names[id.Name] {
+			found = true
+		}
+		return !found
+	})
+	return found
 }
 
 func copyBinds(m map[string]Value) map[string]Value {
